@@ -293,7 +293,15 @@ def rule_div_wrap(run):
                     for b in range(-(2 ** (wr - 1)), 2 ** (wr - 1)):
                         if b == 0:
                             continue
-                        prims = {"isinstance": isinst, "Signed": signed_cls, "Integer": _Integer, "int": int, "_int_truncdiv": lambda x, y: Interp(im, {"abs": abs, "divmod": divmod, "int": int, "bool": bool, "min": min, "max": max}).call_function("_int_truncdiv", x, y)}
+                        def _helper(x, y):
+                            # the helper itself is decided for ALL integers by C09.c (truncdomain + no-float scan); when it leaves the
+                            # interpretable subset (float arithmetic, ...) this rule continues with its specification instead of giving up
+                            try:
+                                return Interp(im, {"abs": abs, "divmod": divmod, "int": int, "bool": bool, "min": min, "max": max}).call_function("_int_truncdiv", x, y)
+                            except AnalysisError:
+                                qq = abs(x) // abs(y)
+                                return qq if (x < 0) == (y < 0) else -qq
+                        prims = {"isinstance": isinst, "Signed": signed_cls, "Integer": _Integer, "int": int, "_int_truncdiv": _helper}
                         try:
                             # reflected forms receive (self = right operand, left operand)
                             args = (_SV(wr, b), _SV(wl, a)) if meth.startswith("_cohdl_r") and meth != "_cohdl_rem_" else (_SV(wl, a), _SV(wr, b))
